@@ -81,3 +81,41 @@ pub fn c06_cards_link() {
     cover!(sh.cat == ord::CAT_TWOPAIR, "two pair");
     cover!(sh.cat == ord::CAT_FLUSH && s[0] == 5, "seven-high flush");
 }
+
+/// REAL evaluator: the rank reported for a hand describes the hand's actual cards — every hand of five distinct
+/// ranks (flushes, straights, high cards; table path) in every slot order
+#[cfg_attr(kani, kani::proof)]
+#[cfg_attr(kani, kani::unwind(14))]
+#[cfg_attr(kani, kani::solver(kissat))]
+pub fn c06_hand_class_distinct_ranks() {
+    use ckc_rs::cards::HandRanker;
+    let (w, r, s) = super::c08::any_five();
+    sym::assume(r[0] != r[1] && r[0] != r[2] && r[0] != r[3] && r[0] != r[4] && r[1] != r[2] && r[1] != r[3] && r[1] != r[4] && r[2] != r[3] && r[2] != r[4] && r[3] != r[4]);
+    let flush = s[0] == s[1] && s[1] == s[2] && s[2] == s[3] && s[3] == s[4];
+    let sh = ord::shape([r[0] as u8, r[1] as u8, r[2] as u8, r[3] as u8, r[4] as u8], flush);
+    let hr = ckc_rs::cards::five::Five::from(w).hand_rank();
+    check!(hr.name == NAME[sh.cat as usize], "reported category describes the cards");
+    check!(hr.class == CLASS[sh.class as usize], "reported class describes the cards");
+    check!(hr.value == sh.ord, "reported value is the cards' ordinal");
+    cover!(sh.cat == ord::CAT_HIGH && r[0] == 12 && r[1] == 4, "ace-high with a six");
+    cover!(sh.cat == ord::CAT_FLUSH, "a flush");
+    cover!(sh.cat == ord::CAT_STRAIGHT, "a straight");
+}
+
+/// REAL evaluator: the same for every hand with a repeated rank (product path), slots in descending card order
+#[cfg_attr(kani, kani::proof)]
+#[cfg_attr(kani, kani::unwind(14))]
+#[cfg_attr(kani, kani::solver(kissat))]
+pub fn c06_hand_class_paired_sorted() {
+    use ckc_rs::cards::HandRanker;
+    let (w, r, _s) = super::c08::any_five();
+    sym::assume(w[0] > w[1] && w[1] > w[2] && w[2] > w[3] && w[3] > w[4]);
+    sym::assume(r[0] == r[1] || r[1] == r[2] || r[2] == r[3] || r[3] == r[4]);
+    let sh = ord::shape([r[0] as u8, r[1] as u8, r[2] as u8, r[3] as u8, r[4] as u8], false);
+    let hr = ckc_rs::cards::five::Five::from(w).hand_rank();
+    check!(hr.name == NAME[sh.cat as usize], "reported category describes the cards");
+    check!(hr.class == CLASS[sh.class as usize], "reported class describes the cards");
+    check!(hr.value == sh.ord, "reported value is the cards' ordinal");
+    cover!(sh.cat == ord::CAT_FULL, "a full house");
+    cover!(sh.cat == ord::CAT_PAIR, "a pair");
+}
